@@ -330,6 +330,7 @@ def structure(sentences: Iterable[Sequence[str]]) -> list[DDE]:
     The sentence regular expression produces two-tuples. Since we use
     the simple groups() function, however, it's technically a Sequence[str].
     """
+    DDE.filler_count = 0
     node_iter = iter(DDE(*s) for s in sentences)
     bottom: Optional[DDE] = next(node_iter)
     trees = [cast(DDE, bottom)]
